@@ -211,6 +211,8 @@ def rand_adapt_history(rng, kind, nev, fresh, bats=("u", "b"), flavs=("static", 
     else:
         flav, arg = "-", "-"
     head = "%s %s %s %s %s" % (kind, flav, bat, arg, vec(src))
+    # Sort*: most histories avoid Truncate so that the known-finding class does not mask the rest
+    no_trunc = kind.startswith("sort") and rng.random() < 0.7
     evs = []
     length = len(src)
     ended = False
@@ -249,7 +251,7 @@ def rand_adapt_history(rng, kind, nev, fresh, bats=("u", "b"), flavs=("static", 
                 i = rng.randrange(length)
                 length -= 1
                 return "Remove(%d)" % i
-            if k == 9 and length > 0:
+            if k == 9 and length > 0 and not no_trunc:
                 n = rng.randrange(length)
                 length = n
                 return "Truncate(%d)" % n
